@@ -183,6 +183,10 @@ def witness_sequences(pool):
     ]
 
 
+TIMEOUT = 60          # seconds per sequence and mode; a sequence normally takes a few milliseconds
+HANGS = {"n": 0}
+
+
 def strip(r):
     return {k: v for k, v in r.items() if k not in ("what", "pos0", "pos1")}
 
@@ -190,8 +194,13 @@ def strip(r):
 def run_pair(exe, seq):
     script = script_of(seq["items"])
     env = {"C15_TMPDIR": core.CACHE}
-    rc1, out1, err1, _ = core.run_exe(exe, ["seq"], stdin_text=script, timeout=600, env=env)
-    rc2, out2, err2, _ = core.run_exe(exe, ["fresh"], stdin_text=script, timeout=600, env=env)
+    if HANGS["n"] >= 3:
+        # the library hangs on these inputs (seen three times already): do not wait for every remaining sequence
+        return (-999, "", "skipped after repeated timeouts"), (-999, "", "skipped after repeated timeouts")
+    rc1, out1, err1, _ = core.run_exe(exe, ["seq"], stdin_text=script, timeout=TIMEOUT, env=env)
+    rc2, out2, err2, _ = core.run_exe(exe, ["fresh"], stdin_text=script, timeout=TIMEOUT, env=env)
+    if rc1 in (-999, -14) or rc2 in (-999, -14):
+        HANGS["n"] += 1
     return (rc1, out1, err1), (rc2, out2, err2)
 
 
@@ -222,6 +231,9 @@ def analyse(ctx, results, stats):
             stats["by_tag"][c["tag"]] = stats["by_tag"].get(c["tag"], 0) + 1
             a = json.loads(l1[i]) if i < len(l1) else {"crashed": True, "rc": rc1, "stderr": err1[-1500:]}
             b = json.loads(l2[i]) if i < len(l2) else {"crashed": True, "rc": rc2, "stderr": err2[-1500:]}
+            for x in (a, b):
+                if x.get("crashed") and x.get("status") == 14:
+                    x["rc"] = -14          # the forked child was ended by SIGALRM
             if b.get("exc"):
                 stats["exceptions"][b["exc"]] = stats["exceptions"].get(b["exc"], 0) + 1
             if b.get("diags"):
@@ -236,7 +248,9 @@ def analyse(ctx, results, stats):
                 stats["differences"] += 1
                 fields = [k for k in sorted(set(strip(a)) | set(strip(b))) if strip(a).get(k) != strip(b).get(k)]
                 replay = {"sequence": seq, "call": i, "in_sequence": a, "fresh": b, "fields": fields}
-                if a.get("crashed") or b.get("crashed"):
+                if (a.get("crashed") and a.get("rc") in (-999, -14)) or (b.get("crashed") and b.get("rc") in (-999, -14)):
+                    key = "hang:%s" % c["tag"]
+                elif a.get("crashed") or b.get("crashed"):
                     key = "crash:%s" % c["tag"]
                 elif wraps_here:
                     key = "history:position>=2^32"
